@@ -117,6 +117,23 @@ def rejectedNames (deps : List ModuleExports) (imp : Import) (items : List Strin
   | some d => names.filter (fun n => !d.publicNames.contains n)
   | none => []
 
+/-- One item of `from m import name as alias` / `import m::name as alias`. -/
+structure ImportItem where
+  name : String
+  alias : Option String := none
+  deriving Repr, DecidableEq
+
+/-- The name an item is bound to in the importing file. -/
+def ImportItem.localName (i : ImportItem) : String := i.alias.getD i.name
+
+/-- Visibility is asked of the imported names; the alias only names the binding. -/
+def rejectedItems (deps : List ModuleExports) (imp : Import) (items : List ImportItem) : List String :=
+  rejectedNames deps imp (items.map (·.name))
+
+/-- The variant that asks the local names instead (a seeded change): for comparison only. -/
+def rejectedItemsByLocalName (deps : List ModuleExports) (imp : Import) (items : List ImportItem) : List String :=
+  rejectedNames deps imp (items.map (·.localName))
+
 /-! ### What a module exports (`exported_symbols`, src/frontend/module.rs) -/
 
 inductive DKind where
